@@ -5,12 +5,16 @@
   `table_f` (the registered signatures, regenerated from the live dispatcher on every run),
   `lattice_f` (every admitted tuple of argument classes × truth values of the applicable
   conditions; the admitted domains are fixed in harness/translators/dump_rules.py) and
-  `clauses_f` (named clause classes that are currently known to fail; empty unless a finding is
-  open).  `resolve` is the executable model of plum's resolver (Model/Dispatch.lean).
+  `clauses_f` (named clause classes that are currently known to fail; ALL EMPTY in the current
+  table — `C04_no_recorded_exception`, PartG — and the build breaks if one becomes non-empty).
+  `resolve` is the executable model of plum's resolver (Model/Dispatch.lean).
 
   `C04_f` : on every lattice tuple outside the clauses the resolver returns a unique rule
   (neither `NotFoundLookupError` nor `AmbiguousLookupError`).  All proofs are kernel evaluations
   (`decide +kernel`): they hold for exactly the table that was generated.
+  `C04_total_unambiguous_noexcept` / `C04_total_selects_minimal_match`: the same with no `excluded`
+  escape at all.  PartH: regression examples on the PRE-fix rows of `inv`, `dot`, `kron` (literal
+  tables from /repo's history) on which the same `resolve` answers `.ambiguous`.
 -/
 import ColaVerif.Model.Dispatch
 import ColaVerif.Gen.RuleTable
@@ -21,6 +25,7 @@ import ColaVerif.Properties.C04.PartD
 import ColaVerif.Properties.C04.PartE
 import ColaVerif.Properties.C04.PartF
 import ColaVerif.Properties.C04.PartG
+import ColaVerif.Properties.C04.PartH
 
 namespace ColaVerif.Properties.C04
 open ColaVerif.Dispatch ColaVerif.Gen.RuleTable
@@ -77,6 +82,28 @@ theorem C04_selected_is_minimal :
   cases hs'
   exact ⟨s, hs, hmatch, hmin⟩
 
+/-- **C04 without an escape clause**: no clause is recorded (`C04_no_recorded_exception`), so on EVERY lattice
+    tuple of EVERY dispatched function the resolver returns `.unique i` outright. -/
+theorem C04_total_unambiguous_noexcept :
+    ∀ e ∈ allFunctions, ∀ t ∈ e.2.2.2.1, ∃ i, resolve hier e.2.1 t = .unique i := by
+  intro e he t ht
+  have h := C04_total_unambiguous e he t ht
+  rw [C04_no_recorded_exception e he, okOn_nil] at h
+  exact (Res.isUnique_iff _).mp h
+
+/-- ... and the selected index is an entry of the table that matches the arguments (arity, hints, condition)
+    and below which no matching entry lies strictly (`C04_selected_is_minimal` with its hypothesis discharged
+    on the whole lattice). -/
+theorem C04_total_selects_minimal_match :
+    ∀ e ∈ allFunctions, ∀ t ∈ e.2.2.2.1, ∃ i s, resolve hier e.2.1 t = .unique i ∧ e.2.1[i]? = some s ∧
+      sigMatch s (t.args.map hier.mask) t.conds = true ∧
+      ∀ (j : Nat) (sj : Sig), e.2.1[j]? = some sj → sigMatch sj (t.args.map hier.mask) t.conds = true →
+        ¬ (sigLe hier sj s = true ∧ sigLe hier s sj = false) := by
+  intro e he t ht
+  obtain ⟨i, hi⟩ := C04_total_unambiguous_noexcept e he t ht
+  obtain ⟨s, hs, hm, hmin⟩ := C04_selected_is_minimal e he t i hi
+  exact ⟨i, s, hi, hs, hm, hmin⟩
+
 end ColaVerif.Properties.C04
 
 open ColaVerif.Properties.C04 ColaVerif.Dispatch in
@@ -114,3 +141,13 @@ open ColaVerif.Properties.C04 ColaVerif.Dispatch in
 #print axioms ColaVerif.Properties.C04.C04_clauses_witnessed
 #print axioms ColaVerif.Properties.C04.C04_tables_preorder
 #print axioms ColaVerif.Properties.C04.C04_selected_is_minimal
+#print axioms ColaVerif.Properties.C04.C04_no_recorded_exception
+#print axioms ColaVerif.Properties.C04.C04_total_unambiguous_noexcept
+#print axioms ColaVerif.Properties.C04.C04_total_selects_minimal_match
+#print axioms ColaVerif.Properties.C04.C04_regression_hier_wf
+#print axioms ColaVerif.Properties.C04.C04_regression_inv_ambiguous
+#print axioms ColaVerif.Properties.C04.C04_regression_inv_fixed
+#print axioms ColaVerif.Properties.C04.C04_regression_dot_ambiguous
+#print axioms ColaVerif.Properties.C04.C04_regression_dot_fixed
+#print axioms ColaVerif.Properties.C04.C04_regression_kron_ambiguous
+#print axioms ColaVerif.Properties.C04.C04_regression_kron_fixed
